@@ -61,7 +61,7 @@ DeepSeq(j, d, mixed, last) == IF j > d THEN <<>>
 DeepCases == {[levels |-> DeepSeq(1, d, m, k), alias |-> 0] : d \in (MaxDepth + 1)..DeepDepth, m \in BOOLEAN, k \in {"sx", "ss", "sc"}}
 
 AliasOK(c) == c.alias = 0 \/ (/\ Len(c.levels) >= c.alias + 1 /\ c.levels[c.alias].kind = "obj"
-                             /\ (c.alias = 2 => c.levels[1].sib = "none"))
+                             /\ \A j \in 1..c.alias : c.levels[j].sib = "none")     \* (keeps the alias family small)
 Cases == {c \in {[levels |-> p, alias |-> a] : p \in Spines(MaxDepth), a \in 0..2} : AliasOK(c)}
          \cup DeepCases
 
